@@ -797,6 +797,20 @@ func (se *specEnv) call(n *ast.CallExpr) specVal {
 				w0 = se.old.W
 			}
 			return specVal{V: Gt(t, w0), T: boolT}
+		case "isexternal":
+			// the dynamic type of an interface value is not a type of this module (e.g. an io error)
+			a := se.eval(n.Args[0])
+			iv, ok := se.rval(a).(*IfaceV)
+			if !ok {
+				se.fail("isexternal on non-interface")
+			}
+			cs := []Term{Neq(iv.Tag, Zero)}
+			for id := 1; id < len(se.x.e.tagTypes); id++ {
+				if nt, ok := deref(se.x.e.tagTypes[id]).(*types.Named); ok && nt.Obj().Pkg() != nil && strings.HasPrefix(nt.Obj().Pkg().Path(), ModPath) {
+					cs = append(cs, Neq(iv.Tag, IntLit(int64(id))))
+				}
+			}
+			return specVal{V: And(cs...), T: boolT}
 		case "ptrnonnil":
 			// an interface value that is non-nil and does not hold a typed nil pointer
 			a := se.eval(n.Args[0])
